@@ -191,6 +191,7 @@ func runC18(c *Ctx) {
 	}
 	checkEmitWidth(c, "R18.2")
 	// the emit pass prints, for every cell, exactly the lines the layout pass measured (C04's slot wiring)
+	importFreshState(c, "R18.2", "texttable")
 	importPremises(c, "R18.2", "emit-pass premise ", "a line that is altered or dropped between measuring and printing makes the two passes disagree", func(o *Ob) bool { return o.Rule == "R04.2" }, func() { runC04(c) })
 
 	// ---- R18.3
